@@ -11,7 +11,8 @@ from harness import calib, gen
 from harness.checks.c09 import Logger
 from harness.common import Ctx, drive, guard
 
-RULE = ("Hypothesis draws an initial line-up (repeated classes allowed) and a history of operations {calibrate(n), "
+RULE = ("Hypothesis draws an initial line-up (repeated classes allowed; built-in classes and a user-defined sampler class nested "
+        "inside another class) and a history of operations {calibrate(n), "
         "set_samplers(new line-up), set_scheduler(RoundRobinScheduler(new line-up)), explicit checkpoint, read labels through "
         "black_it.plot.plot_results._get_samplers_names(folder, ids present), restore from the calibrator's own checkpoint and "
         "carry on}; BaseSampler.sample is wrapped at class level to "
